@@ -776,9 +776,10 @@ func MakeConnWithCompleteHandshake(tcpConn net.Conn, version uint16, cipherSuite
 		var clientCipher, serverCipher interface{}
 		var clientHash, serverHash hash.Hash
 		if cs.cipher != nil {
-			clientCipher = cs.cipher(clientKey, clientIV, true /* for reading */)
+			// the client keys protect what the client writes: they are read keys for a server only
+			clientCipher = cs.cipher(clientKey, clientIV, !isClient /* for reading */)
 			clientHash = cs.mac(clientMAC)
-			serverCipher = cs.cipher(serverKey, serverIV, false /* not for reading */)
+			serverCipher = cs.cipher(serverKey, serverIV, isClient /* for reading */)
 			serverHash = cs.mac(serverMAC)
 		} else {
 			clientCipher = cs.aead(clientKey, clientIV)
